@@ -207,7 +207,9 @@ func init() {
 			}
 		}
 		L["(*net/url.URL).ResolveReference"] = func(s *State, site ssa.Instruction, a []Val) []Val {
-			s.used("(*url.URL).ResolveReference(ref): a fresh non-nil URL, a function of base and reference")
+			s.used("(*url.URL).ResolveReference(ref): requires ref != nil; a fresh non-nil URL, a function of base and reference")
+			s.oblige("lib-pre:ResolveReference", site, s.c.ordinal(site, "lib-pre:ResolveReference"), not(eq(a[1].S, "0")), "(*url.URL).ResolveReference dereferences its argument: nil reference", false)
+			s.assume(not(eq(a[1].S, "0")))
 			u := s.allocObj(derefType(a[0].T), a[0].T)
 			s.c.declare("urlResolve", "(declare-fun urlResolve (Int Int) Int)")
 			s.assume(eq(app("urlResolve", a[0].S, a[1].S), u.S))
@@ -254,6 +256,9 @@ func init() {
 		}
 		L["(*crypto/tls.Conn).SetDeadline"] = func(s *State, site ssa.Instruction, a []Val) []Val {
 			s.used("(*tls.Conn).SetDeadline(t): all later reads and writes fail once t has passed (absolute deadline)")
+			if dl, ok := s.ghost["net_deadline"]; ok && dl.S != "" {
+				s.oblige("lib-pre:deadline-once", site, s.c.ordinal(site, "lib-pre:deadline-once"), not(dl.S), "the deadline of a connection is set once: setting it again extends it, so a trickling peer could keep a fetch alive forever", false)
+			}
 			s.ghost["net_deadline"] = Val{T: boolT, S: "true"}
 			errv, _ := s.errOrNil("setdeadline", false)
 			return []Val{errv}
